@@ -366,6 +366,30 @@ def m_opt_as_ref(I, st, call):
     return out
 
 
+@model("core::option::Option::<core::result::Result<T, E>>::transpose")
+def m_opt_transpose(I, st, call):
+    """None -> Ok(None); Some(Ok(x)) -> Ok(Some(x)); Some(Err(e)) -> Err(e)"""
+    sp = split_variants(I, st, call.args[0], call.arg_tys[0])
+    if sp is None:
+        return None
+    dt = call.dest_ty
+    okt = dt[2][0] if dt and dt[0] == "adt" and dt[2] else None
+    out = []
+    for s, vi, p in sp:
+        if vi == 0:
+            out.append((s, mk_ok(mk_none(okt), dt)))
+            continue
+        inner = p.fields[0] if isinstance(p, StructV) and p.fields else None
+        it = call.arg_tys[0][2][0] if call.arg_tys[0] and call.arg_tys[0][0] == "adt" and call.arg_tys[0][2] else None
+        sp2 = split_variants(I, s, inner, it, "res")
+        if sp2 is None:
+            return None
+        for s2, vj, q in sp2:
+            x = q.fields[0] if isinstance(q, StructV) and q.fields else TopV(None)
+            out.append((s2, mk_ok(mk_option(I, x, okt), dt) if vj == 0 else mk_err(x, dt)))
+    return out
+
+
 @model("core::option::Option::<T>::get_or_insert_with", "core::option::Option::<T>::get_or_insert", "core::option::Option::<T>::insert")
 def m_opt_get_or_insert(I, st, call):
     ref = call.args[0]
